@@ -50,7 +50,7 @@ def discover_registries(repo):
     regs = {}
     for cls in repo.classes.values():
         for f in cls.methods.values():
-            if not f.params:
+            if not f.params or not f.is_classmethod:
                 continue
             first = f.params[0]
             names = set()
@@ -415,7 +415,10 @@ def fold_registrations(repo, regs, module_order=None):
                 found = repo.lookup(cls, call.func.attr)
                 if found is None or not isinstance(found[1], FuncInfo):
                     raise AnalysisError('%s:%d: %s is not a method of %s' % (m.rel, st.lineno, call.func.attr, cls.qualname))
-                w = next((w for w in writers_by_name[call.func.attr] if w.func is found[1]), None)
+                cands = [w for w in writers_by_name[call.func.attr] if w.func is found[1]]
+                # a writer may touch several registries; the registration lands in the one it stores a key into
+                keyed = [w for w in cands if w.key_params or w.needs_deep or w.value_param]
+                w = keyed[0] if keyed else (cands[0] if cands else None)
                 if w is None:
                     raise AnalysisError('%s:%d: %s resolves to an unanalysed writer' % (m.rel, st.lineno, norm(call.func)))
                 args = list(call.args)
